@@ -207,6 +207,7 @@ type vCtl struct {
 	vPipeConn
 	raw      []byte
 	next     []byte // delivered by the second call
+	more     [][]byte // delivered by the third, fourth, ... call
 	received int
 }
 
@@ -218,6 +219,10 @@ func (c *vCtl) ReceiveControlMsg(m ControlMsg) error {
 	case 2:
 		if c.next != nil {
 			return m.Deserialize(c.next)
+		}
+	default:
+		if i := c.received - 3; i >= 0 && i < len(c.more) {
+			return m.Deserialize(c.more[i])
 		}
 	}
 	return vErrTimeout
@@ -568,4 +573,36 @@ func VH_C15_TcpWriteRetry() {
 	if j >= 0 && j < len(got) && j < len(reported) {
 		vAssert(got[j] == reported[j], "the reader's stream differs from the concatenation of the reported writes")
 	}
+}
+
+// VH_C15_KitSequence: control messages of different sizes in a row, empty
+// ones among them (a zero-length write of the layer above): data, empty,
+// data, empty, empty, data. The bytes connKit.Read hands out are exactly the
+// concatenation of the payloads - an empty message contributes nothing (in
+// particular not the previous payload again).
+func VH_C15_KitSequence() {
+	a, b, c := vBytes("a", 2), vBytes("b", 3), vBytes("c", 1)
+	ser := func(p []byte) []byte {
+		raw, err := NewMsgData(ProtocolVersion, p).Serialize()
+		vAssert(err == nil, "MsgData.Serialize failed")
+		return raw
+	}
+	ctl := &vCtl{raw: ser(a), next: ser(nil), more: [][]byte{ser(b), ser([]byte{}), ser(nil), ser(c)}}
+	k := &connKit{impl: ctl}
+	want := append(append(append([]byte{}, a...), b...), c...)
+	var got []byte
+	for i := 0; i < 12 && len(got) < len(want)+4; i++ {
+		buf := vWindow(4)
+		n, err := k.Read(buf)
+		if err != nil {
+			break
+		}
+		vAssert(n >= 0 && n <= 4, "Read reported more bytes than the buffer holds")
+		if n < 0 || n > 4 {
+			return
+		}
+		got = append(got, buf[:n]...)
+	}
+	vReach("kit-sequence")
+	vAssert(vBytesEq(got, want), "the stream read through connKit is not the concatenation of the control-message payloads (an empty message delivered something, or bytes were lost)")
 }
